@@ -1206,7 +1206,7 @@ impl Prop for C09 {
         run(c, o)
     }
     fn rule() -> &'static str {
-        "three families. (a) Request::set_timeout(d): d = k x unit + e for k in {99999998, 99999999, 10^8, 10^8+1, ...} around every point where the encoder must switch n->u->m->S->M->H, random (secs, nanos) with log-uniform seconds up to 99999999 h 59 m 59.999999999 s, zero, maximum; oracle: value matches [0-9]{1,8}[HMSmun], denotes (own u128 table) D' <= d with d - D' < one unit, finer unit would need > 8 digits (documented 'most precise unit'), tonic's parser maps it back to D'. (b) tonic's header parser (verif hook) on: every unit x 1..8 digits x {min, max, zeros, leading zeros, random} (enumerated), one-edit mutants of valid values (insert/delete/replace/transpose from an alphabet of signs, blanks, digits, units, wrong-case units, NUL, non-ASCII; 9 digits), arbitrary bytes, absent and repeated headers; oracle = independent grammar parser: conformant => exactly the denoted duration, malformed => never Ok(Some), never a panic. (c) real Channel + Server over the in-memory pipe on a paused clock: caller deadline (none | set_timeout | raw conformant header in any unit | raw malformed header) x Endpoint::timeout (none | e) x Server::timeout (none | s), values equal / 1 ms.. apart / far apart, unary and server-streaming vt.Raw handlers with scripted latency l at T-d, T+d (d in {2,3,5,17,100} ms), far below, far above and between the two shortest timeouts, T = min of the timeouts present, pipe fragmentation schedules, scheduler seed; oracle: l < T => exactly the scripted response/status (C02 judge) at virtual elapsed l +-2 ms; l > T => CANCELLED 'Timeout expired' at T +-2 ms; no timeout => completes at l. Non-trivial: (a) d within one unit of a unit switch, (b) one-edit mutant of a valid value or repeated header, (c) >= 2 timeouts present and different; distinct = distinct serialised case. Also: configured timeouts of Duration::MAX (no effect on calls). Also: configured timeouts of exactly zero, Server::layer(Identity) before/after Server::timeout, Server::tcp_keepalive set (must not act as a deadline). Executor-stall scenario: with Server::timeout as the only deadline the virtual clock jumps from l/2 past the deadline in one step; a handler that finished before the deadline still wins. Parse family also pads conformant values with blanks/tabs on either side (not conformant: ignored, never a panic); enforcement deadlines include 19.1 h, 24 h and 30 d."
+        "three families. (a) Request::set_timeout(d): d = k x unit + e for k in {99999998, 99999999, 10^8, 10^8+1, ...} around every point where the encoder must switch n->u->m->S->M->H, random (secs, nanos) with log-uniform seconds up to 99999999 h 59 m 59.999999999 s, zero, maximum; oracle: value matches [0-9]{1,8}[HMSmun], denotes (own u128 table) D' <= d with d - D' < one unit, finer unit would need > 8 digits (documented 'most precise unit'), tonic's parser maps it back to D'. (b) tonic's header parser (verif hook) on: every unit x 1..8 digits x {min, max, zeros, leading zeros, random} (enumerated), one-edit mutants of valid values (insert/delete/replace/transpose from an alphabet of signs, blanks, digits, units, wrong-case units, NUL, non-ASCII; 9 digits), arbitrary bytes, absent and repeated headers; oracle = independent grammar parser: conformant => exactly the denoted duration, malformed => never Ok(Some), never a panic. (c) real Channel + Server over the in-memory pipe on a paused clock: caller deadline (none | set_timeout | raw conformant header in any unit | raw malformed header) x Endpoint::timeout (none | e) x Server::timeout (none | s), values equal / 1 ms.. apart / far apart, unary and server-streaming vt.Raw handlers with scripted latency l at T-d, T+d (d in {2,3,5,17,100} ms), far below, far above and between the two shortest timeouts, T = min of the timeouts present, pipe fragmentation schedules, scheduler seed; oracle: l < T => exactly the scripted response/status (C02 judge) at virtual elapsed l +-2 ms; l > T => CANCELLED 'Timeout expired' at T +-2 ms; no timeout => completes at l. Non-trivial: (a) d within one unit of a unit switch, (b) one-edit mutant of a valid value or repeated header, (c) >= 2 timeouts present and different; distinct = distinct serialised case. Also: configured timeouts of Duration::MAX (no effect on calls). Also: configured timeouts of exactly zero, Server::layer(Identity) before/after Server::timeout, Server::tcp_keepalive set (must not act as a deadline). Executor-stall scenario: with Server::timeout as the only deadline the virtual clock jumps from l/2 past the deadline in one step; a handler that finished before the deadline still wins. Parse family also pads conformant values with blanks/tabs on either side (not conformant: ignored, never a panic); enforcement deadlines include 19.1 h, 24 h and 30 d. set_timeout is preceded by an earlier set_timeout in half of the encode cases; a quarter of the enforcement scenarios first make a warm-up call with a 1 ms deadline on the same channel; every enforcement channel has connect_timeout(1 ms)."
     }
     fn assumptions() -> Vec<String> {
         vec![
